@@ -105,14 +105,17 @@ func (t *Directive) Validate(root *Root) (errs []error) {
 		// [Query] can be coerced as a list but is not a valid input type.
 		if co, _ := a.Type.(InCoercer); co != nil && IsInputType(a.Type) {
 			if a.Default != nil {
-				if v, err := co.CoerceIn(a.Default); err != nil {
+				// Coerce a copy, coercing fills the defaults of an input
+				// type into the object it is given.
+				if v, err := co.CoerceIn(dupValue(a.Default)); err != nil {
 					errs = append(errs, fmt.Errorf("%w at %d:%d", err, a.line, a.col))
 				} else {
 					// Might as well replace the coerced value since it is
 					// really what is needed. Do not compare the values
 					// first, list and object values are not comparable and
 					// would panic.
-					a.Default = v
+					a, v := a, v
+					root.keepCoerced(func() { a.Default = v })
 				}
 			}
 		} else {
